@@ -808,3 +808,105 @@ def drain_before_leave_rule(chk: Check, rule: str) -> None:
                     chk.undecided(rule, fn, construct, "exit condition of the Empty handler not recognised", fn.loc(br))
     if n < 2:
         chk.undecided(rule, "<discovery>", f"sites={n}", "fewer `except queue.Empty ... break` sites than confirmed by hand (2)")
+
+
+# ------------------------------------------------------------------------------------------------- dead parameter
+def dead_parameter_rule(chk: Check, rule: str, prefixes: tuple[str, ...], what: str, floor: int = 10) -> None:
+    """DEAD-PARAMETER: a parameter that is assigned on every path before it is ever read: whatever the caller passes
+    is silently ignored (`def serialize_case(..., params=None): ...; params = case.query`)."""
+    chk.rule(rule, f"DEAD-PARAMETER({what}): no parameter is overwritten on every path before its first read - the value the caller passed would be silently ignored (an option that is accepted and has no effect)", floor=floor)
+    P = chk.project
+    n = 0
+    for fn in P.all_functions():
+        if isinstance(fn.node, ast.Lambda) or not any(fn.qualname.startswith(p_) for p_ in prefixes):
+            continue
+        a = fn.node.args
+        skip = {a.vararg.arg if a.vararg else None, a.kwarg.arg if a.kwarg else None, "self", "cls"}
+        ps = [p_ for p_ in params_of(fn.node) if p_ not in skip and not p_.startswith("_")]
+        if not ps:
+            continue
+        g = None
+        for p_ in ps:
+            stores = [x for x in walk_body(fn.node) if isinstance(x, ast.Name) and x.id == p_ and isinstance(x.ctx, ast.Store)]
+            if not stores:
+                n += 1
+                continue
+            n += 1
+            if g is None:
+                g = cfg_of(fn)
+            loads_nested = any(isinstance(x, ast.Name) and x.id == p_ and isinstance(x.ctx, ast.Load) for x in walk_body(fn.node, into_nested=True))
+            read_nodes: set[int] = set()
+            pure_writes: set[int] = set()
+            for node in g.live():
+                if node.ast is None or node.kind not in ("stmt", "test", "for", "with", "return", "raise"):
+                    continue
+                root = node.ast
+                # for compound headers only the header expression belongs to this node
+                exprs: list[ast.AST]
+                if isinstance(root, (ast.If, ast.While)):
+                    exprs = [root.test]
+                elif isinstance(root, (ast.For, ast.AsyncFor)):
+                    exprs = [root.iter, root.target]
+                elif isinstance(root, (ast.With, ast.AsyncWith)):
+                    exprs = [i.context_expr for i in root.items] + [i.optional_vars for i in root.items if i.optional_vars is not None]
+                elif isinstance(root, (ast.FunctionDef, ast.AsyncFunctionDef, ast.ClassDef)):
+                    exprs = [root]  # a nested definition that mentions the name counts as a read (closure)
+                else:
+                    exprs = [root]
+                names = [x for e in exprs for x in ast.walk(e) if isinstance(x, ast.Name) and x.id == p_]
+                if any(isinstance(x.ctx, ast.Load) for x in names):
+                    read_nodes.add(node.id)
+                elif any(isinstance(x.ctx, ast.Store) for x in names):
+                    pure_writes.add(node.id)
+            construct = f"parameter `{p_}` is read before it is overwritten"
+            if not read_nodes:
+                if loads_nested:
+                    chk.ok(rule, fn, construct, "read in a nested scope", fn.loc())
+                else:
+                    chk.violation(rule, fn, construct, f"`{p_}` is assigned in the body and never read: the caller's value is ignored", fn.loc(stores[0]))
+                continue
+            if g.path([g.entry], list(read_nodes), avoid=list(pure_writes), edge_ok=lambda a_, b_, lbl: not lbl.startswith("exc:")) is not None:
+                chk.ok(rule, fn, construct, "", fn.loc())
+            else:
+                chk.violation(rule, fn, construct,
+                              f"every path from the function's entry assigns `{p_}` (line {getattr(stores[0], 'lineno', '?')}) before any read: the argument the caller passed never has an effect - e.g. `case.call(params={{...}})` documented for credentials is accepted and dropped",
+                              fn.loc(stores[0]))
+    # the same for a local that took a caller-supplied value (`params = kwargs.get("params")`) and is overwritten before
+    # its first read: the option is fetched and dropped
+    m = 0
+    for fn in P.all_functions():
+        if isinstance(fn.node, ast.Lambda) or not any(fn.qualname.startswith(p_) for p_ in prefixes):
+            continue
+        params = set(params_of(fn.node))
+        g = None
+        for st in walk_body(fn.node):
+            if not (isinstance(st, ast.Assign) and len(st.targets) == 1 and isinstance(st.targets[0], ast.Name)):
+                continue
+            v = st.value
+            from_caller = isinstance(v, ast.Call) and isinstance(v.func, ast.Attribute) and v.func.attr in ("get", "pop") and isinstance(v.func.value, ast.Name) and v.func.value.id in params and v.args and isinstance(v.args[0], ast.Constant)
+            if not from_caller:
+                continue
+            name = st.targets[0].id
+            m += 1
+            if g is None:
+                g = cfg_of(fn)
+            starts = [m_ for nid in g.nodes_of(st) for m_, lbl in g.nodes[nid].succ if not lbl.startswith("exc:")]
+            read_nodes, pure_writes = set(), set()
+            for node in g.live():
+                if node.ast is None or node.ast is st:
+                    continue
+                root = node.ast
+                exprs = [root.test] if isinstance(root, (ast.If, ast.While)) else ([root.iter, root.target] if isinstance(root, (ast.For, ast.AsyncFor)) else ([i.context_expr for i in root.items] if isinstance(root, (ast.With, ast.AsyncWith)) else [root]))
+                names = [x for e in exprs for x in ast.walk(e) if isinstance(x, ast.Name) and x.id == name]
+                if any(isinstance(x.ctx, ast.Load) for x in names):
+                    read_nodes.add(node.id)
+                elif any(isinstance(x.ctx, ast.Store) for x in names):
+                    pure_writes.add(node.id)
+            construct = f"`{unparse(st, 50)}` is read before `{name}` is overwritten"
+            if read_nodes and g.path(starts, list(read_nodes), avoid=list(pure_writes), edge_ok=lambda a_, b_, lbl: not lbl.startswith("exc:")) is not None:
+                chk.ok(rule, fn, construct, "", fn.loc(st))
+            else:
+                chk.violation(rule, fn, construct,
+                              f"the value taken from the caller's `{unparse(v, 40)}` is overwritten on every path before it is read: the option is accepted and dropped (e.g. `case.call(params={{\"Api-Key\": ...}})`, documented for credentials, never reaches the wire)",
+                              fn.loc(st))
+    chk.note(f"{rule}: {n} parameter(s), {m} local(s) fed from caller keyword mappings analysed")
